@@ -31,6 +31,10 @@ func VerifDeterministic(id int, variant int) {
 	verifMapOrderInstance(-1)
 	a := gen()
 	verifAssert(len(a) > 200, "C14: harness captured no generator output (vacuous)")
+	// the same run again, same iteration order: state kept from an earlier generation in the
+	// process (a cache, a pooled buffer) must not show in the output
+	a2 := gen()
+	verifAssert(a == a2, "C14: a second generation in the same process produces a different output")
 	n := verifRangeCount()
 	verifAssume(n > 0)
 	k := verifConc(verifPick("instance", n))
